@@ -167,6 +167,20 @@ pub fn judge_sequence(p: &Pos, d: u8, seq: &[u64], t: u64, kind: &str, rs: &mut 
     let k = seq[0];
     let ctx = json!({"fen": fen, "depth": d, "uninterrupted_nodes": t, "gen": kind, "interrupted_at_nodes": seq});
     let mut searcher = Searcher::new();
+    // a game history recorded before the searches (distinct positions, once each: they cannot
+    // make anything a repetition, but an interrupted search that pops one entry too many — or
+    // leaves one behind — now changes a non-empty record)
+    let preload = (k % 3) as usize;
+    for j in 0..preload {
+        // the recorded position must not occur anywhere in the searched tree
+        let h = tree.get(tree.len().saturating_sub(1 + j)).map(|q| q.mirror()).filter(|m| m != p && !tree.contains(m));
+        if let Some(m) = h {
+            searcher.push_position(&eng::to_board(&m));
+        }
+    }
+    if preload > 0 {
+        stats.class("interruptions_with_a_recorded_game_history");
+    }
     let it = interrupted_search(&mut searcher, p, d, k, &ctx)?;
     stats.eval();
     let mut stored = it.stored_entries;
